@@ -51,8 +51,20 @@ def run(rep, tier, seed, replay):
             rep.violation("conflicting accesses without a common lock (theorem C20_access_table_race_free no longer checks); the race detector exhibits a schedule",
                           dict(unprotected_pairs=off, race_report=text, scenarios=scen))
         else:
-            rep.violation("theorem C20_access_table_race_free / C20_go_statements_covered no longer checks on the regenerated access table",
-                          dict(unprotected_pairs_or_uncovered_go=off, theorem="coq/theories/Properties/C20.v", race_detector="no report in the scenarios run"), no_input=True)
+            ok_, out_ = genproof.compile_obligation("C20.v")
+            thm = genproof.failed_theorem("C20.v", out_) if not ok_ else ""
+            main_rows = ""
+            if thm == "C20_main_startup_ordered":
+                # which of main's accesses come after a goroutine that touches the same location was started
+                import re as _re
+                src = open(genproof.GEN).read()
+                src = src[src.index("Definition main_table"):]
+                src = src[:src.index("].")]
+                main_rows = [r_ for r_ in _re.findall(r'\("([^"]*)", (true|false), \[([^\]]*)\], \[([^\]]+)\]\)', src) if not r_[2]][:12]
+            rep.violation("theorem %s no longer checks on the regenerated access table (C20_access_table_race_free: an unprotected pair of sites; C20_go_statements_covered: "
+                          "a goroutine without a role; C20_main_startup_ordered: main touches shared state without a lock after starting a goroutine that writes it)" % (thm or "of Properties/C20.v"),
+                          dict(failed_theorem=thm, unprotected_pairs_or_uncovered_go=off, unlocked_accesses_of_main_after_a_go_statement=main_rows,
+                               theorem="coq/theories/Properties/C20.v", race_detector="no report in the scenarios run"), no_input=True)
     elif n:
         rep.violation("the race detector reports a data race although the access table passes", dict(race_report=text, scenarios=scen))
     elif any("mixed=" in ln and "mixed=0" not in ln for ln in (text or "").splitlines()):
